@@ -13,7 +13,7 @@ extra = {
  'OBufFill': f('bufdata_pre')+f('OBufFill'), 'OBufSet': f('bufdata_pre')+f('OBufSet'),
  'OBufSetn': f('bufdata_pre')+f('OBufSetn'), 'OBufGen': f('bufdata_pre')+f('OBufGen'),
  'OBusNew': f('OBusNew'), 'OBusSet': f('bus_pre')+f('OBusSet'), 'OBusSetn': f('bus_pre')+f('OBusSetn'),
- 'OBusSetPairs': f('bus_pre')+f('OBusSetPairs'), 'ORaw': f('ORaw'), 'OBusSub': f('OBusSub'), 'OFreeDefaultGroup': f('dgroups'), 'OSendDefaultGroups': f('dgroups'),
+ 'OBusSetPairs': f('bus_pre')+f('OBusSetPairs'), 'ORaw': f('ORaw'), 'OBusSub': f('OBusSub'), 'OFreeDefaultGroup': f('dgroups'), 'OBufSendList': f('OBufSendList'), 'OBufGetToList': f('OBufGetToList'), 'OBufNewSendList': f('OBufNewSendList'), 'OSendDefaultGroups': f('dgroups'),
 }
 names=list(optest.ctors)
 groups={'C17_ops1.v': names[:26], 'C17_ops2.v': names[26:47], 'C17_ops3.v': names[47:]}
